@@ -551,8 +551,28 @@ def _prep_c09(name):
     modes = ['zero', 'noise']
     if elfedit.drop_section_headers(data, 'truncate') is not None:
         modes.append('truncate')
+    # decoy variant: a tag whose value is irrelevant statically (DT_DEBUG, or a spare terminator slot turned
+    # into one) is given a value that looks like a pointer into the symbol table; a still valid image on which
+    # the count must come from the hash tables, not from pointer-distance guessing
+    decoy = None
+    w = 4 if raw.cls == 32 else 8
+    gnu_hashed = False
+    for s in raw.sections:
+        if s['sh_type'] == elfraw.SHT['GNU_HASH'] and s['sh_offset'] + s['sh_size'] <= len(data):
+            g = elfraw.RawGnuHash(raw, s['sh_offset'], s['sh_size'])
+            gnu_hashed = g.ok and any(g.chains().values())
+    if DT['HASH'] in tags or gnu_hashed:
+        symsize = 16 if raw.cls == 32 else 24
+        val = tags[DT['SYMTAB']] + symsize
+        dbg = [o for t, v, o in ents if t == 21]
+        null_off = [o for t, v, o in ents if t == 0]
+        if dbg:
+            decoy = dict(off=dbg[0], tag=21, val=val)
+        elif null_off and null_off[0] + 4 * w <= p['p_offset'] + p['p_filesz'] and \
+                raw.u(null_off[0] + 2 * w, w) == 0 and raw.u(null_off[0] + 3 * w, w) == 0:
+            decoy = dict(off=null_off[0], tag=21, val=val)
     return dict(name=name, ok=True, modes=modes, seg_index=p['_index'], dynsec=dsec[0]['_index'],
-                has_hash=DT['HASH'] in tags, has_gnu_hash=DT['GNU_HASH'] in tags)
+                has_hash=DT['HASH'] in tags, has_gnu_hash=DT['GNU_HASH'] in tags, decoy=decoy, cls=raw.cls, bo=raw.bo)
 
 
 def _c09_plan(tier, seed):
@@ -571,6 +591,9 @@ def _c09_plan(tier, seed):
         # no fault: the segment view of the intact image (string table through the section link)
         for k in range(max(2, orders // 4)):
             plan.append((n, 'intact', k))
+        if info[n].get('decoy'):
+            for k in range(max(2, orders // 4)):
+                plan.append((n, 'zero+decoy', k))
     _ST.update(mode='C09', info=info, elig=elig, plan=plan, tier=tier,
                skipped={n: i['why'] for n, i in info.items() if not i['ok']})
 
@@ -623,6 +646,18 @@ def _c09_exec(spec):
     data = env.corpus_bytes(name)
     info = _ST.get('info', {}).get(name) or _prep_c09(name)
     mode = spec['fault']
+    variant = None
+    if mode.endswith('+decoy'):
+        mode = mode.split('+')[0]
+        variant = 'decoy'
+        dc = info.get('decoy')
+        if not dc:
+            return _skip(spec, 'no slot for a decoy tag')
+        w = 4 if info['cls'] == 32 else 8
+        ba = bytearray(data)
+        ba[dc['off']:dc['off'] + w] = dc['tag'].to_bytes(w, info['bo'])
+        ba[dc['off'] + w:dc['off'] + 2 * w] = dc['val'].to_bytes(w, info['bo'])
+        data = bytes(ba)
     r = substream(spec['seed'], 'order')
     noise = bytes(r.getrandbits(8) for _ in range(64))
     damaged = data if mode == 'intact' else elfedit.drop_section_headers(data, mode, noise)
@@ -633,8 +668,10 @@ def _c09_exec(spec):
     stream = SimStream(damaged)
     log = []
 
+    tagmode = mode + ('+decoy' if variant else '')
+
     def viol(check, expected, observed):
-        violations.append(dict(key='%s|%s' % (mode, check), check=check, expected=expected, observed=observed))
+        violations.append(dict(key='%s|%s' % (tagmode, check), check=check, expected=expected, observed=observed))
 
     elf = ELFFile(stream)
     fired = (elf.num_sections() == 0) != (mode == 'intact')
@@ -675,7 +712,7 @@ def _c09_exec(spec):
             if a['syms'] is not None and (info['has_hash'] or info['has_gnu_hash']):
                 if st != 'ok' or val != len(a['syms']):
                     tabs = '+'.join(x for x, y in (('DT_HASH', info['has_hash']), ('DT_GNU_HASH', info['has_gnu_hash'])) if y)
-                    violations.append(dict(key='%s|num_symbols|%s' % (mode, tabs), check='symbol count recovered through the hash table',
+                    violations.append(dict(key='%s|num_symbols|%s' % (tagmode, tabs), check='symbol count recovered through the hash table',
                                            expected=len(a['syms']), observed=jsonable(val, 300)))
         elif q == 'symbols':
             st, val = _try(lambda: [canon(s) for s in seg.iter_symbols()])
@@ -723,7 +760,8 @@ def _c09_exec(spec):
         log.append((q, stream.ops, stream.pos))
     return dict(spec=spec, violations=violations, digest=pdigest(log, [v['key'] for v in violations]), nontrivial=fired,
                 nt_digest=pdigest(name, mode, queries, p_disp), evaluations=1, sim_time=stream.clock.seq,
-                faults={'shloss_' + mode: [1, int(fired)]}, probes={'queries': len(queries), 'nsym_known': int(a['syms'] is not None)}, sample=None)
+                faults={'shloss_' + mode: [1, int(fired)], **({'decoy_pointer_tag': [1, 1]} if variant else {})},
+                probes={'queries': len(queries), 'nsym_known': int(a['syms'] is not None)}, sample=None)
 
 
 def _first_diff(exp, got):
